@@ -571,6 +571,9 @@ int main(int argc, char** argv)
     else if (en->name == "nc.getVector") d = dictVectors();
     else if (en->name == "nc.seqFromString") d = dictSequences();
     else if (en->name == "iv.readDescription") d = dictIntervals();
+    else if (en->name == "dt.read")
+      for (char sep : {',', '\t', ' '})
+        for (const auto& t : dictTableTexts(sep)) d.push_back(t);
     else if (en->kind == K_VECTOR)
     {
       for (const auto& v : vectorValues()) d.push_back(v);
